@@ -198,6 +198,8 @@ def same_obs(q, x, y, rational):
     return same_val(a, b, rational)
 
 
+CLEAN_AXIS = True
+CLEAN_DEPTH = [1]
 LEN_TOL = [1e-9]
 NUM_TOL = [1e-9]
 
@@ -240,6 +242,8 @@ def cases(tier, seed):
                     specs.append({"id": "H:%s:%s;%s" % (name, ev, ev2), "operands": name, "prefix": [i, j], "depth": total - 2, "cost": cost[name] * 12})
             else:
                 specs.append({"id": "H:%s:%s" % (name, ev), "operands": name, "prefix": [i], "depth": total - 1, "cost": cost[name] * (12 if total > 1 else 1), "second_transform_only": tier == "quick" and name in PARAMS})
+    for sp in specs:
+        sp["clean_depth"] = 1 if tier == "quick" else 99
     specs.append({"id": "config", "config": True, "cost": 100})
     return specs
 
@@ -270,6 +274,7 @@ def check_state(name, hist):
     sig = (rg.rep_sig(A), rg.rep_sig(B), rg.rep_sig(C))
     frames = frames_for(A, B, C)
     fA, fB, fC = rebuild(A), rebuild(B), rebuild(C)
+    A0, B0, C0 = rebuild(A), rebuild(B), rebuild(C)
     small = name == "curved"
     obs_live = battery(A, B, C, frames, small)
     obs_fresh = battery(fA, fB, fC, frames, small)
@@ -277,6 +282,17 @@ def check_state(name, hist):
     for (q, x), (_, y) in zip(obs_live, obs_fresh):
         if not same_obs(q, x, y, rational):
             fails.append((q, "after the history the live object answers %s, a freshly built copy answers %s" % (short(x), short(y))))
+    # answers depend on the geometry, not on the subdivision the operators left behind: a
+    # fresh copy whose redundant vertices have been cleaned away answers the same
+    if CLEAN_AXIS and name != "curved" and len(hist) <= CLEAN_DEPTH[0]:
+        cA, cB, cC = rebuild(A0), rebuild(B0), rebuild(C0)
+        for X in (cA, cB, cC):
+            for j in rg.all_jordans(X):
+                j.clean()
+        obs_clean = battery(cA, cB, cC, frames, small)
+        for (q, x), (_, y) in zip(obs_live, obs_clean):
+            if not same_obs(q, x, y, rational):
+                fails.append(("subdivision:" + q, "the live object answers %s, a fresh copy without the redundant vertices answers %s" % (short(x), short(y))))
     # asking a question never changes the answer to a later one: the same battery again on
     # the same live objects
     second = battery(A, B, C, frames, small)
@@ -324,6 +340,7 @@ def run_case(spec):
         return {"violations": viols, "evals": len(base) * len(runs), "nontrivial": ["cfg:%d" % i for i in range(len(base))], "states": len(runs), "transitions": len(base) * len(runs), "hist": {"config-runs": len(runs), "config-programs": len(base)}, "sample": {"configs": [list(c) for c, _ in runs]}}
     name = spec["operands"]
     prefix = spec["prefix"]
+    CLEAN_DEPTH[0] = spec.get("clean_depth", 1)
     viols = []
     hist_counts = {}
     nontrivial = []
